@@ -25,7 +25,7 @@ pub fn cases(quick: bool) -> Vec<Case> {
         v.push(Case::new("encoding", idx, p));
         idx += 1;
     };
-    let reps = if quick { 10 } else { 200 };
+    let reps = if quick { 40 } else { 200 };
     let max_m = if quick { 3 } else { 4 };
     for rep in 0..reps {
         for ck in 1..=4usize {
@@ -47,7 +47,7 @@ pub fn cases(quick: bool) -> Vec<Case> {
             }
         }
     }
-    let mixed = if quick { 600 } else { 20000 };
+    let mixed = if quick { 3000 } else { 20000 };
     for i in 0..mixed {
         push(json!({"mode":"mixed","ck_kb": i % 4 + 1,"ek_kb": (i / 4) % 4 + 1,"k":0,"n": 0,"ne_target":0,"trailing": i % 3 == 0}));
     }
